@@ -147,3 +147,164 @@ func EscapesWithout(start ssa.Instruction, stop func(ssa.Instruction) bool, cut 
 	}
 	return nil
 }
+
+// MustEventsEdge is MustEvents with additional events generated on CFG edges
+// (for facts established by branch conditions).
+func MustEventsEdge(fn *ssa.Function, ev func(ssa.Instruction) []string, edge func(b *ssa.BasicBlock, si int) []string) *EventFlow {
+	ef := &EventFlow{in: map[*ssa.BasicBlock]map[string]bool{}, ev: ev}
+	if len(fn.Blocks) == 0 {
+		return ef
+	}
+	ef.in[fn.Blocks[0]] = map[string]bool{}
+	work := []*ssa.BasicBlock{fn.Blocks[0]}
+	for len(work) > 0 {
+		b := work[0]
+		work = work[1:]
+		cur := map[string]bool{}
+		for k := range ef.in[b] {
+			cur[k] = true
+		}
+		for _, in := range b.Instrs {
+			for _, e := range ev(in) {
+				cur[e] = true
+			}
+		}
+		for si, s := range b.Succs {
+			es := map[string]bool{}
+			for k := range cur {
+				es[k] = true
+			}
+			if edge != nil {
+				for _, e := range edge(b, si) {
+					es[e] = true
+				}
+			}
+			old, seen := ef.in[s]
+			if !seen {
+				ef.in[s] = es
+				work = append(work, s)
+				continue
+			}
+			changed := false
+			for k := range old {
+				if !es[k] {
+					delete(old, k)
+					changed = true
+				}
+			}
+			if changed {
+				work = append(work, s)
+			}
+		}
+	}
+	return ef
+}
+
+// MayState is a forward may-analysis over a small set of state labels: the
+// set at a point contains every label some path can be in. step maps the
+// state before an instruction to the state after it.
+type MayState struct {
+	in   map[*ssa.BasicBlock]map[string]bool
+	step func(in ssa.Instruction, state string) string
+}
+
+// MayStates runs the analysis from the initial state; edge may refine the
+// state on an edge (return "" to drop the path: infeasible).
+func MayStates(fn *ssa.Function, init string, step func(ssa.Instruction, string) string, edge func(b *ssa.BasicBlock, si int, state string) string) *MayState {
+	ms := &MayState{in: map[*ssa.BasicBlock]map[string]bool{}, step: step}
+	if len(fn.Blocks) == 0 {
+		return ms
+	}
+	ms.in[fn.Blocks[0]] = map[string]bool{init: true}
+	work := []*ssa.BasicBlock{fn.Blocks[0]}
+	for len(work) > 0 {
+		b := work[0]
+		work = work[1:]
+		out := map[string]bool{}
+		for st := range ms.in[b] {
+			cur := st
+			for _, in := range b.Instrs {
+				cur = step(in, cur)
+			}
+			out[cur] = true
+		}
+		for si, s := range b.Succs {
+			if ms.in[s] == nil {
+				ms.in[s] = map[string]bool{}
+			}
+			changed := false
+			for st := range out {
+				ns := st
+				if edge != nil {
+					ns = edge(b, si, st)
+				}
+				if ns == "" {
+					continue
+				}
+				if !ms.in[s][ns] {
+					ms.in[s][ns] = true
+					changed = true
+				}
+			}
+			if changed {
+				work = append(work, s)
+			}
+		}
+	}
+	return ms
+}
+
+// At returns the possible states immediately before instr.
+func (ms *MayState) At(instr ssa.Instruction) map[string]bool {
+	out := map[string]bool{}
+	for st := range ms.in[instr.Block()] {
+		cur := st
+		for _, in := range instr.Block().Instrs {
+			if in == instr {
+				break
+			}
+			cur = ms.step(in, cur)
+		}
+		out[cur] = true
+	}
+	return out
+}
+
+// ReachesAvoiding reports whether target is reachable from the function entry
+// without executing an instruction for which stop is true and without taking
+// an edge for which cut is true.
+func ReachesAvoiding(fn *ssa.Function, target ssa.Instruction, stop func(ssa.Instruction) bool, cut func(b *ssa.BasicBlock, si int) bool) bool {
+	if len(fn.Blocks) == 0 {
+		return false
+	}
+	seen := map[*ssa.BasicBlock]bool{}
+	work := []*ssa.BasicBlock{fn.Blocks[0]}
+	for len(work) > 0 {
+		b := work[len(work)-1]
+		work = work[:len(work)-1]
+		if seen[b] {
+			continue
+		}
+		seen[b] = true
+		stopped := false
+		for _, in := range b.Instrs {
+			if in == target {
+				return true
+			}
+			if stop != nil && stop(in) {
+				stopped = true
+				break
+			}
+		}
+		if stopped {
+			continue
+		}
+		for si, s := range b.Succs {
+			if cut != nil && cut(b, si) {
+				continue
+			}
+			work = append(work, s)
+		}
+	}
+	return false
+}
